@@ -102,15 +102,14 @@ impl TryFrom<&str> for FeelYearsAndMonthsDuration {
     if let Some(captures) = RE_YEARS_AND_MONTHS.captures(value) {
       let mut is_valid = false;
       let mut total_months = 0_i64;
-      if let Some(years_match) = captures.name("years") {
-        if let Ok(years) = years_match.as_str().parse::<u64>() {
-          total_months += (years as i64) * MONTHS_IN_YEAR;
-          is_valid = true;
-        }
-      }
-      if let Some(months_match) = captures.name("months") {
-        if let Ok(months) = months_match.as_str().parse::<u64>() {
-          total_months += months as i64;
+      for (name, unit) in [("years", MONTHS_IN_YEAR), ("months", 1)] {
+        if let Some(field_match) = captures.name(name) {
+          // a field that is too big to be represented makes the literal invalid, the total must not wrap around
+          let field = field_match.as_str().parse::<i64>().ok();
+          match field.and_then(|v| v.checked_mul(unit)).and_then(|v| total_months.checked_add(v)) {
+            Some(total) => total_months = total,
+            None => return Err(err_invalid_years_and_months_duration_literal(value)),
+          }
           is_valid = true;
         }
       }
